@@ -169,6 +169,26 @@ class SV:
             return z3.IntVal(k) if k >= 0 else self.n + k
         return None
 
+    def _positional(self, key):
+        """compressed[index_array]: NumPy counts positions in the *compressed* vector.  nth(j) is the base position of its j-th
+        element: in range, selected, strictly increasing (so nth(j) >= j).  An index beyond the number of selected elements is an
+        IndexError in NumPy: side obligation."""
+        c = cur()
+        cnt = count_guard(self).t
+        nth = z3.Function(c.fresh_name("vcx_nth"), z3.IntSort(), z3.IntSort())
+        j = z3.Int(c.fresh_name("vcx_i"))
+        with QScope(c, j) as qs:
+            sel = self.guard(nth(j))
+            picked = key.guard(j) if key.guard is not None else TRUE
+        ax = qs.conj()
+        c.assume(z3.ForAll([j], z3.And(ax, z3.Implies(z3.And(0 <= j, j < cnt), z3.And(j <= nth(j), nth(j) < self.n, sel))), patterns=[nth(j)]))
+        c.assume(z3.ForAll([j], z3.Implies(z3.And(0 <= j, j + 1 < cnt), nth(j) < nth(j + 1)), patterns=[nth(j + 1)]))
+        w = z3.Int(c.fresh_name("vcx_any"))
+        c.oblige("index.in_bounds", z3.Implies(z3.And(0 <= w, w < key.n, key.guard(w) if key.guard is not None else TRUE), w < cnt),
+                 kind="side", note="an index array addresses a position beyond the end of a compressed vector (IndexError)")
+        at = self.at
+        return SV(self.n, lambda i: at(nth(i)), self.kind, key.guard)
+
     def __getitem__(self, key):
         if isinstance(key, tuple) and len(key) == 1:
             key = key[0]
@@ -191,7 +211,7 @@ class SV:
                 # np.arange(m)[mask] used as an index array == boolean selection by that mask
                 _align_n(self, key)
                 if not self.dense():
-                    raise Unsupported("index-array selection from a compressed vector")
+                    return self._positional(key)
                 return SV(self.n, self.at, self.kind, key.guard)
             raise Unsupported("fancy indexing with a general integer array")
         k = self._index_term(key)
